@@ -357,3 +357,239 @@ theorem entryLine_no_nl (o : WriteOpts) (p : Dep) (hn : Tok o.native) (ho : OptT
     | exact tk _ hdist h
 
 end EupsModel.Manifest
+
+namespace EupsModel.Manifest
+
+/-! ### association lists -/
+
+theorem assocGet_assocSet_same {β : Type} (l : List (Str × β)) (k : Str) (v : β) :
+    assocGet (assocSet l k v) k = some v := by
+  induction l with
+  | nil => simp [assocSet, assocGet]
+  | cons p r ih =>
+    obtain ⟨k', v'⟩ := p
+    by_cases h : k' = k
+    · simp [assocSet, assocGet, h]
+    · simp [assocSet, assocGet, h, ih]
+
+theorem assocGet_assocSet_other {β : Type} (l : List (Str × β)) (k k2 : Str) (v : β) (hne : k2 ≠ k) :
+    assocGet (assocSet l k v) k2 = assocGet l k2 := by
+  induction l with
+  | nil => simp [assocSet, assocGet, Ne.symm hne]
+  | cons p r ih =>
+    obtain ⟨k', v'⟩ := p
+    by_cases h : k' = k
+    · subst h
+      simp [assocSet, assocGet, Ne.symm hne]
+    · by_cases h2 : k' = k2
+      · subst h2
+        simp [assocSet, assocGet, hne]
+      · simp [assocSet, assocGet, h, h2, ih]
+
+theorem assocSet_keys_new {β : Type} (l : List (Str × β)) (k : Str) (v : β) (h : k ∉ l.map (·.1)) :
+    (assocSet l k v).map (·.1) = l.map (·.1) ++ [k] := by
+  induction l with
+  | nil => simp [assocSet]
+  | cons p r ih =>
+    obtain ⟨k', v'⟩ := p
+    have hk : k' ≠ k := fun e => h (by simp [e])
+    have hr : k ∉ r.map (·.1) := fun hm => h (by simp [hm])
+    simp [assocSet, hk, ih hr]
+
+/-! ### sorting -/
+
+theorem insertSorted_perm (x : Str) (l : List Str) : (insertSorted x l).Perm (x :: l) := by
+  induction l with
+  | nil => exact List.Perm.refl _
+  | cons y r ih =>
+    simp only [insertSorted]
+    split
+    · exact List.Perm.refl _
+    · exact (List.Perm.cons y ih).trans (List.Perm.swap x y r)
+
+theorem sortStrs_perm (l : List Str) : (sortStrs l).Perm l := by
+  induction l with
+  | nil => exact List.Perm.refl _
+  | cons x r ih =>
+    simp only [sortStrs, List.foldr_cons]
+    exact (insertSorted_perm x _).trans (List.Perm.cons x ih)
+
+/-- adjacent elements in Python's string order -/
+def SortedAdj : List Str → Prop
+  | [] => True
+  | [_] => True
+  | x :: y :: r => Str.cmp x y ≤ 0 ∧ SortedAdj (y :: r)
+
+theorem sortStrs_sorted_id (l : List Str) (h : SortedAdj l) : sortStrs l = l := by
+  induction l with
+  | nil => rfl
+  | cons x r ih =>
+    cases r with
+    | nil => rfl
+    | cons y r2 =>
+      have h2 : SortedAdj (y :: r2) := h.2
+      have := ih h2
+      simp only [sortStrs, List.foldr_cons] at this ⊢
+      rw [this]
+      simp [insertSorted, h.1]
+
+/-! ### tag lists -/
+
+theorem words_tail (t : Str) (extra : List Str) (ht : Tok t) (he : ∀ x ∈ extra, Tok x) :
+    wordsAux (t ++ extra.flatMap (fun x => [32, 32] ++ x)) [] = t :: extra := by
+  induction extra generalizing t with
+  | nil => simpa using words_last t ht
+  | cons x r ih =>
+    have : t ++ (x :: r).flatMap (fun x => [32, 32] ++ x) =
+        t ++ (List.replicate 1 32 ++ 32 :: (x ++ r.flatMap (fun x => [32, 32] ++ x))) := by
+      simp [List.flatMap_cons, List.replicate]
+    rw [this, wordsAux_tok_sp t 1 _ ht, ih x (he x (by simp)) (fun y hy => he y (by simp [hy]))]
+
+theorem words_tagLine (fa : Option Str) (p fl ver : Str) (extra : List Str) (hp : Tok p) (hfl : Tok (fa.getD fl))
+    (hver : Tok ver) (he : ∀ x ∈ extra, Tok x) :
+    words (tagLine fa p (fl :: ver :: extra)) = p :: fa.getD fl :: ver :: extra := by
+  have : tagLine fa p (fl :: ver :: extra) =
+      padTo 20 p ++ [32] ++ (padTo 10 (fa.getD fl) ++ [32] ++ (ver ++ extra.flatMap (fun x => [32, 32] ++ x))) := by
+    simp [tagLine, List.append_assoc]
+  rw [words, this, wordsAux_col _ p _ hp, wordsAux_col _ _ _ hfl, words_tail ver extra hver he]
+
+theorem parseTagHeader_tagHeader (tag : Str) : parseTagHeader tag (tagHeader tag) = true := by
+  have h1 : (sTagHead ++ tag ++ sTagMid).isPrefixOf (tagHeader tag) = true := by
+    simp [tagHeader, List.append_assoc]
+  have h2 : (tagHeader tag).drop (sTagHead ++ tag ++ sTagMid).length = 46 :: (sVersionWord ++ sFmt) := by
+    have : tagHeader tag = (sTagHead ++ tag ++ sTagMid) ++ (46 :: (sVersionWord ++ sFmt)) := by
+      simp [tagHeader, List.append_assoc]
+    rw [this, List.drop_left']
+    rfl
+  have h3 : sVersionWord.isPrefixOf (sVersionWord ++ sFmt) = true := by simp
+  have h4 : (sVersionWord ++ sFmt).drop sVersionWord.length = sFmt := by simp
+  unfold parseTagHeader
+  simp only [h1, h2, Bool.true_and]
+  simp [h3, h4, fmtVersionOk_fmt]
+
+/-- the reader's invariant: `products` and the keys of `info` are the same duplicate-free list -/
+structure TagInv (r : TagList) (F : Str) : Prop where
+  flavor : r.flavor = F
+  keys : r.info.map (·.1) = r.products
+  nodup : r.products.Nodup
+
+theorem getProducts_add_new (r : TagList) (F p ver fl : Str) (extra : List Str) (hi : TagInv r F)
+    (hp : p ∉ r.products) :
+    (r.addProduct p ver (some fl) extra).getProducts = r.getProducts ++ [p :: fl :: ver :: extra] ∧
+      TagInv (r.addProduct p ver (some fl) extra) F ∧
+      (r.addProduct p ver (some fl) extra).products = r.products ++ [p] := by
+  have hc : r.products.contains p = false := by simpa using hp
+  have hk : p ∉ r.info.map (·.1) := by rw [hi.keys]; exact hp
+  refine ⟨?_, ⟨hi.flavor, ?_, ?_⟩, ?_⟩
+  · simp only [TagList.getProducts, TagList.addProduct, hc, Bool.false_eq_true, if_false, List.map_append,
+      List.map_cons, List.map_nil, Option.getD_some, assocGet_assocSet_same]
+    congr 1
+    apply List.map_congr_left
+    intro q hq
+    have : q ≠ p := fun e => hp (e ▸ hq)
+    rw [assocGet_assocSet_other _ _ _ _ this]
+  · simp only [TagList.addProduct, hc, Bool.false_eq_true, if_false, Option.getD_some]
+    rw [assocSet_keys_new _ _ _ hk, hi.keys]
+  · simp only [TagList.addProduct, hc, Bool.false_eq_true, if_false]
+    exact List.nodup_append.mpr ⟨hi.nodup, by simp, by
+      intro a ha b hb; simp at hb; subst hb; exact fun e => hp (e ▸ ha)⟩
+  · simp only [TagList.addProduct, hc, Bool.false_eq_true, if_false]
+
+/-- the flavor the reader of flavor `F` sees for an entry written with `flavor=fa` (`generic` stands for `F`) -/
+def readerFlavor (fa : Option Str) (F fl : Str) : Str := if fa.getD fl == sGeneric then F else fa.getD fl
+
+/-- what the reader of flavor `F` keeps of an entry -/
+def keepEntry (fa : Option Str) (F : Str) (p : Str) (info : List Str) : Option (List Str) :=
+  match info with
+  | fl :: ver :: extra =>
+    if readerFlavor fa F fl == F then some (p :: readerFlavor fa F fl :: ver :: extra) else none
+  | _ => none
+
+/-- an entry the round trip is claimed for -/
+def TagEntryOk (fa : Option Str) (p : Str) (info : List Str) : Prop :=
+  Tok p ∧ p.head? ≠ some 35 ∧ ∃ fl ver extra, info = fl :: ver :: extra ∧ Tok (fa.getD fl) ∧ Tok ver ∧ ∀ x ∈ extra, Tok x
+
+theorem tagEntry_line (fa : Option Str) (F : Str) (r : TagList) (p : Str) (info : List Str) (hi : TagInv r F)
+    (hok : TagEntryOk fa p info) (hp : p ∉ r.products) :
+    ∃ r', tagEntry r (tagLine fa p info) = .ok r' ∧ TagInv r' F ∧
+      r'.getProducts = r.getProducts ++ (keepEntry fa F p info).toList ∧
+      (∀ q, q ∈ r'.products → q ∈ r.products ∨ q = p) := by
+  obtain ⟨htp, hnc, fl, ver, extra, rfl, hfl, hver, hex⟩ := hok
+  have hw := words_tagLine fa p fl ver extra htp hfl hver hex
+  have hskip : tagSkip (tagLine fa p (fl :: ver :: extra)) = false := by
+    simp only [tagSkip, tagLine, padTo_eq, List.append_assoc]
+    exact isBlankOrComment_entry _ _ htp hnc
+  unfold tagEntry
+  simp only [hskip, Bool.false_eq_true, if_false, hw, hi.flavor, keepEntry]
+  have e : (if (fa.getD fl == sGeneric) = true then F else fa.getD fl) = readerFlavor fa F fl := rfl
+  simp only [e]
+  generalize readerFlavor fa F fl = f2
+  cases hk : f2 == F
+  · simp only [Bool.false_eq_true, if_false]
+    exact ⟨r, rfl, hi, by simp, fun q hq => Or.inl hq⟩
+  · simp only [if_true]
+    obtain ⟨h1, h2, h3⟩ := getProducts_add_new r F p ver f2 extra hi hp
+    refine ⟨_, rfl, h2, ?_, ?_⟩
+    · rw [h1]; rfl
+    · intro q hq; rw [h3] at hq; simpa using hq
+
+theorem tagEntries_lines (fa : Option Str) (F : Str) (info : Str → List Str) : ∀ (ps : List Str) (r : TagList),
+    TagInv r F → ps.Nodup → (∀ p ∈ ps, p ∉ r.products) → (∀ p ∈ ps, TagEntryOk fa p (info p)) →
+    ∃ r', tagEntries r (ps.map fun p => tagLine fa p (info p)) = .ok r' ∧
+      r'.getProducts = r.getProducts ++ ps.filterMap (fun p => keepEntry fa F p (info p)) := by
+  intro ps
+  induction ps with
+  | nil => intro r _ _ _ _; exact ⟨r, rfl, by simp⟩
+  | cons p rest ih =>
+    intro r hi hnd hdis hok
+    obtain ⟨r1, h1, hi1, hg1, hmem⟩ := tagEntry_line fa F r p (info p) hi (hok p (by simp)) (hdis p (by simp))
+    have hnd' := (List.nodup_cons.mp hnd).2
+    have hpn := (List.nodup_cons.mp hnd).1
+    have hdis' : ∀ q ∈ rest, q ∉ r1.products := by
+      intro q hq hq1
+      rcases hmem q hq1 with h | h
+      · exact hdis q (by simp [hq]) h
+      · subst h; exact hpn hq
+    obtain ⟨r2, h2, hg2⟩ := ih r1 hi1 hnd' hdis' (fun q hq => hok q (by simp [hq]))
+    refine ⟨r2, ?_, ?_⟩
+    · simp only [List.map_cons, tagEntries, h1, h2]
+    · rw [hg2, hg1]
+      cases hk : keepEntry fa F p (info p) <;> simp [List.filterMap_cons, hk]
+
+theorem tagEntries_comments (r : TagList) (cs rest : List Str) (h : ∀ l ∈ cs, isBlankOrComment l = true) :
+    tagEntries r (cs ++ rest) = tagEntries r rest := by
+  induction cs with
+  | nil => rfl
+  | cons l q ih =>
+    have : tagEntry r l = .ok r := by simp [tagEntry, tagSkip, h l (by simp)]
+    simp only [List.cons_append, tagEntries, this]
+    exact ih (fun x hx => h x (by simp [hx]))
+
+theorem tagLine_no_nl (fa : Option Str) (p : Str) (info : List Str) (hok : TagEntryOk fa p info) :
+    ∀ c ∈ tagLine fa p info, c ≠ 10 ∧ c ≠ 13 := by
+  obtain ⟨htp, _, fl, ver, extra, rfl, hfl, hver, hex⟩ := hok
+  intro c hc
+  have tk : ∀ t : Str, Tok t → c ∈ t → c ≠ 10 ∧ c ≠ 13 := fun t ht hct => ⟨ht.no_nl c hct, ht.no_cr c hct⟩
+  have sp : c = 32 → c ≠ 10 ∧ c ≠ 13 := by intro h; subst h; exact ⟨by decide, by decide⟩
+  simp only [tagLine, List.mem_append, List.mem_flatMap] at hc
+  rcases hc with ((((h | h) | h) | h) | h) | ⟨x, hx, h⟩
+  · rcases mem_padTo _ _ _ h with h' | h'
+    · exact tk _ htp h'
+    · exact sp h'
+  · exact sp (by simpa using h)
+  · rcases mem_padTo _ _ _ h with h' | h'
+    · exact tk _ hfl h'
+    · exact sp h'
+  · exact sp (by simpa using h)
+  · exact tk _ hver h
+  · rcases h with h | h
+    · have : c = 32 := by simpa using h
+      exact sp this
+    · exact tk _ (hex x hx) h
+
+theorem tagRead_of_lines (r0 : TagList) (text h : Str) (rest : List Str)
+    (hl : lines (univNewlines text) = h :: rest) (hh : parseTagHeader r0.tag h = true) :
+    r0.read text = tagEntries r0 rest := by
+  simp [TagList.read, hl, hh]
+
+end EupsModel.Manifest
